@@ -1,10 +1,145 @@
 import PyxModel.Sexp
+import PyxModel.Prebuild.Decode
+import PyxModel.Prebuild.Canon
+import PyxModel.Prebuild.Typing
+import PyxModel.Prebuild.Chain
+import PyxModel.Prebuild.Recipe
 
-/-! driver commands of property C06 (stub: no command yet) -/
+/-! driver commands of property C06:
+      (c06 (ctx classes funcs ees enums consts params self) <BodyNode tree>)
+    answer: (((subtype "type")…)  statement-chains  parameter-chains  link-chains)
+    where a chain row lists, per element in source order, the index of the element its referential attribute
+    designates (or none); rows are sorted (the harness sorts its rows the same way).
+      (c06-recipes)  →  the recipe table ((class ((rel partner)…) method)…) -/
 namespace Pyx.Driver.C06
-open Pyx Pyx.Sexp
+open Pyx Pyx.Sexp Pyx.Prebuild
+
+def pairs : Sexp → List (String × String)
+  | list xs => xs.filterMap fun
+    | list [a, b] => match asStr? a, asStr? b with
+      | some x, some y => some (x, y)
+      | _, _ => none
+    | _ => none
+  | _ => []
+
+def strs : Sexp → List String
+  | list xs => xs.filterMap asStr?
+  | _ => []
+
+def decClass : Sexp → Option ClassInfo
+  | list [kl, ir, irs, attrs, ops] => do
+    let a ← asStr? kl; let b ← asStr? ir; let c ← asStr? irs
+    some ⟨a, b, c, pairs attrs, pairs ops⟩
+  | _ => none
+
+def decTCtx : Sexp → Option TCtx
+  | list [sym "ctx", list classes, funcs, list ees, list enums, list consts, params, self] =>
+    some {
+      classes := classes.filterMap decClass
+      funcs := pairs funcs
+      ees := ees.filterMap fun
+        | list [k, bs] => (asStr? k).map fun kk => (kk, pairs bs)
+        | _ => none
+      enums := enums.filterMap fun
+        | list [n, es] => (asStr? n).map fun nn => (nn, strs es)
+        | _ => none
+      consts := consts.filterMap fun
+        | list [g, cs] => (asStr? g).map fun gg => (gg, pairs cs)
+        | _ => none
+      params := pairs params
+      selfKl := match self with
+        | str s => some s
+        | _ => none }
+  | _ => none
+
+def encRow (r : Row) : Sexp :=
+  list [sym r.1, match r.2 with | some t => str t | none => sym "none"]
+
+def encRef (ids : List Nat) (r : Option Nat) : Sexp :=
+  match r with
+  | none => sym "none"
+  | some v => match ids.idxOf? v with
+    | some i => int i
+    | none => sym "other"
+
+def rowPrev (n : Nat) : List Sexp :=
+  let ids := List.range n
+  ids.map fun x => encRef ids (prevStatement ids x)
+
+def rowNext (n : Nat) : List Sexp :=
+  let ids := List.range n
+  ids.map fun x => encRef ids (nextInChain ids x)
+
+def Params.len : Params → Nat
+  | .nil => 0
+  | .cons _ _ r => Params.len r + 1
+
+mutual
+  partial def exprParamLens : Expr → List Nat
+    | .field h _ => exprParamLens h
+    | .index h i => exprParamLens h ++ exprParamLens i
+    | .un _ e => exprParamLens e
+    | .bin l _ r => exprParamLens l ++ exprParamLens r
+    | .call _ _ _ ps => Params.len ps :: paramsParamLens ps
+    | .icall h _ ps => exprParamLens h ++ (Params.len ps :: paramsParamLens ps)
+    | _ => []
+  partial def paramsParamLens : Params → List Nat
+    | .nil => []
+    | .cons _ e r => exprParamLens e ++ paramsParamLens r
+end
+
+structure Acc where
+  blocks : List Nat := []
+  pars : List Nat := []
+  links : List Nat := []
+
+def Block.len : Block → Nat
+  | .nil => 0
+  | .cons _ r => Block.len r + 1
+
+mutual
+  partial def accStmt (a : Acc) : Stmt → Acc
+    | .assign l r => { a with pars := a.pars ++ exprParamLens r ++ exprParamLens l }
+    | .ret (some e) => { a with pars := a.pars ++ exprParamLens e }
+    | .selFromW _ _ _ w => { a with pars := a.pars ++ exprParamLens w }
+    | .selRel _ _ h ch => { a with pars := a.pars ++ exprParamLens h, links := a.links ++ [ch.length] }
+    | .selRelW _ _ h ch w =>
+      { a with pars := a.pars ++ exprParamLens h ++ exprParamLens w, links := a.links ++ [ch.length] }
+    | .forEach _ _ b => accBlock a b
+    | .while_ e b => accBlock { a with pars := a.pars ++ exprParamLens e } b
+    | .if_ e b el els => accElse (accElifs (accBlock { a with pars := a.pars ++ exprParamLens e } b) el) els
+    | .invoke e => { a with pars := a.pars ++ exprParamLens e }
+    | _ => a
+  partial def accStmts (a : Acc) : Block → Acc
+    | .nil => a
+    | .cons s r => accStmts (accStmt a s) r
+  partial def accBlock (a : Acc) (b : Block) : Acc :=
+    accStmts { a with blocks := a.blocks ++ [Block.len b] } b
+  partial def accElifs (a : Acc) : Elifs → Acc
+    | .nil => a
+    | .cons e b r => accElifs (accBlock { a with pars := a.pars ++ exprParamLens e } b) r
+  partial def accElse (a : Acc) : Else → Acc
+    | .none => a
+    | .some b => accBlock a b
+end
+
+def sortNat (xs : List Nat) : List Nat := (xs.toArray.qsort (· < ·)).toList
 
 def handle : List Sexp → Option Sexp
+  | [sym "c06", ctx, body] =>
+    match decTCtx ctx, decBody body with
+    | some c, some b =>
+      let cc : Ctx := ⟨c.ees.map (·.1), c.classes.map (·.kl)⟩
+      let cb := canon cc b
+      let acc := accBlock {} cb
+      some (list [list ((typeWalk c cb).map encRow),
+                  list ((sortNat acc.blocks).map fun n => list (rowPrev n)),
+                  list ((sortNat acc.pars).map fun n => list (rowNext n)),
+                  list ((sortNat acc.links).map fun n => list (rowNext n))])
+    | _, _ => some (list [sym "error", sym "undecodable"])
+  | [sym "c06-recipes"] =>
+    some (list (recipes.map fun r =>
+      list [str r.cls, list (r.links.map fun l => list [int l.1, str l.2]), str r.name]))
   | _ => none
 
 end Pyx.Driver.C06
